@@ -7,7 +7,7 @@ import ast
 from ..core import Ctx, RuleResult, finding, short, walk_no_nested
 from ..model import AnalysisError, norm
 from ..mutants import Mut
-from ..rules import accum, offstep, inv, prog, ret
+from ..rules import accum, loopfresh, offstep, inv, prog, ret
 from ..rules.defuse import DefUse
 from ..rules.util import callee_name, cfg_of, nodes_where
 from ..tables import INV_EXCEPTIONS
@@ -312,6 +312,7 @@ def run(ctx: Ctx):
         rule_alphabet(ctx),
         rule_same_text(ctx),
         rule_clamped_cursor_read(ctx),
+        loopfresh.run_loopfresh(p, "C10.12", "C10", floor=1),
         accum.run_accum(p, "C10.9", "C10", floor=3),
         offstep.run_offstep(p, "C10.10", ["urwid.text_layout.calc_line_pos", "urwid.text_layout.calc_pos", "urwid.text_layout.calc_coords"], floor=0),
     ]
